@@ -113,6 +113,16 @@ def cases(rng, tier):
                 yield Case(program=f"(({exc} ㄷㅈㅎㄴ) (ㄱㅇㄱ ㄷㅈㅎㄴ ㅎ) ㅅㄷㅎㄷ) (ㄱ ㄱㅇㄱ ㅎㄴ ㅎ) ㅅㄷㅎㄷ", variants=(enc(n),), tag='lazy-payload-rethrown', stdin="x\n")
                 yield Case(program=f"(({exc} ㄷㅈㅎㄴ ㄱㅅㅎㄴ ㅎ) ㅎㄱ) (ㄱ ㄱㅇㄱ ㅎㄴ ㅎ) ㅅㄷㅎㄷ", variants=(enc(n),), tag='lazy-payload-in-call', stdin="x\n")
                 yield Case(program=f"{exc} ㄷㅈㅎㄴ", tag='lazy-payload-uncaught', stdin="x\n")
+        # "fails identically": the very same exception value arrives each time — visible when its contents hold a function
+        # (functions are equal to themselves only): the fault is built once, by the one evaluation of the shared expression
+        for fpay in ["(ㄱㅇㄱ ㅎ)", "(ㄷ ㄴㄱㅎㄴ)", "((ㄱㅇㄱ ㅎ) ㅁㄹㅎㄴ)", "(ㄴ (ㄱㅇㄱ ㅎ) ㅅㅈㅎㄷ)"]:
+            x = f"({fpay} ㄷㅂㅎㄴ ㄷㅈㅎㄴ)"
+            ID = "(ㄱㅇㄱ ㅎ)"
+            yield Case(program=f"{x} ((ㄱㅇㄱ {ID} ㅅㄷㅎㄷ) (ㄱㅇㄱ {ID} ㅅㄷㅎㄷ) ㄴㅎㄷ ㅎ) ㅎㄴ", variants=("ㅈㅈㅎㄱ",), tag='refail-identical', stdin="x\n")
+            yield Case(program=f"{x} ((ㄱㅇㄱ {ID} ㅅㄷㅎㄷ) (ㄱㅇㄱ (ㄱㅇㄴ {ID} ㅅㄷㅎㄷ ㅎ) ㅅㄷㅎㄷ) ㄴㅎㄷ ㅎ) ㅎㄴ", variants=("ㅈㅈㅎㄱ",),
+                       tag='refail-identical-nested', stdin="x\n")
+            yield Case(program=f"{x} ((ㄱㅇㄱ {ID} ㅅㄷㅎㄷ) ((ㄱㅇㄱ (ㄱㅇㄱ ㄷㅈㅎㄴ ㅎ) ㅅㄷㅎㄷ) {ID} ㅅㄷㅎㄷ) ㄴㅎㄷ ㅎ) ㅎㄴ", variants=("ㅈㅈㅎㄱ",),
+                       tag='refail-identical-rethrown', stdin="x\n")
         # built-in failures: contents begin [5, class]
         for prog in ["ㄴ ㄱ ㄴㄴㅎㄷ", "ㄴ ㅁㅈㅎㄱ ㄷㅎㄷ", "ㄹ ㅇㄱ", "ㅈㅈㅈㅈㅈ ㅎㄱ", "ㄱ ㄴ ㅁㄹㅎㄷ ㄷ ㅎㄴ".replace("ㄱ ㄴ ㅁㄹㅎㄷ ㄷ ㅎㄴ", "ㄷ (ㄱ ㄴ ㅁㄹㅎㄷ) ㅎㄴ"),
                      "ㄴ (ㅅㅈㅎㄱ) ㅎㄴ", "ㅁㅈㅎㄱ ㅈㅅㅎㄴ", "ㄴ ㄷ ㄱ ㅅㅎㄹ"]:
